@@ -58,7 +58,7 @@ def KM_valid(cx):
     nx, ny, nb = ps_globals(cx)
     return And(PS_static(cx), it >= 1, it <= 4, ip == it, kd == nx, pd == nx,
                cx.len('this._offset') == pd * nb,
-               cx.len('this._hinfo') >= pd * nb * ip,
+               cx.len('this._hinfo') >= pd * nb * ip, pd * nb * ip < 2 ** 32,
                cx.f('this._lastbunch') < nb)
 
 
@@ -80,6 +80,32 @@ def row_spec(cx, g, e, offs_arr):
     ongrid = And(T >= 0, T < kd, idx >= 0, idx < kd)
     return If(ongrid, And(hidx == idx, hw == W(it, e, P - z3.ToReal(T))),
               And(hw == 0, hidx < kd))
+
+
+def small(model, key, lo, hi, dflt):
+    v = model.get(key)
+    if isinstance(v, int) and lo <= v <= hi:
+        return v
+    return dflt
+
+
+def kick_replay(model):
+    """native runs of the real KickMap on the counterexample's sizes (clipped to replayable ones)
+    plus neighbouring small configurations"""
+    N = small(model, 'vfps::PhaseSpace::_nmeshcellsX', 4, 48, 9)
+    nb = small(model, 'vfps::PhaseSpace::_nbunches', 1, 4, 3)
+    it = small(model, 'this._it', 1, 4, 3)
+    ax = small(model, 'this._kickdirection', 0, 1, 1)
+    lb = small(model, 'this._lastbunch', 0, nb - 1, -1)
+    runs = [['kick', N, nb, it, ax, lb, 1]]
+    for n2 in (2, 3):
+        for it2 in (it, 4, 2):
+            for ax2 in (ax, 1 - ax):
+                for lb2 in (-1, 0):
+                    r = ['kick', 9, n2, it2, ax2, lb2, 2]
+                    if r not in runs:
+                        runs.append(r)
+    return {'harness': 'sm_replay', 'runs': runs}
 
 
 # =========================================================================== U2
@@ -144,7 +170,7 @@ def stencil_sum(cx, data, base_of_src, ok_of_src, row, ip, ipmax=4):
         idx = cx.sel('this._hinfo', row * ip + j, 'index', 'int')
         w = cx.sel('this._hinfo', row * ip + j, 'weight')
         s = idx - kd / 2          # displacement in cells
-        total = total + If(And(j < ip, ok_of_src(s)), z3.Select(data, base_of_src(s)) * w, z3.RealVal(0))
+        total = total + If(And(j < ip, ok_of_src(s)), models.FMUL(z3.Select(data, base_of_src(s)), w), z3.RealVal(0))
     return total
 
 
@@ -154,6 +180,7 @@ class KickMapApply(Contract):
     params = []
     tags = {'C01', 'C02', 'C08', 'C12'}
     ghosts = {'n': 'int', 'x': 'int', 'y': 'int'}
+    uf_mul = True      # posts are structural: data*weight only needs congruence
 
     def setup(self, cx):
         cx.st.assume(declare_ps(cx, (cx.this or 'this') + '._in'))
@@ -189,6 +216,9 @@ class KickMapApply(Contract):
                 ('in_unchanged', {'C08', 'C12'}, din == cx.arr('this._in._data')),
                 ('table_unchanged', {'C08', 'C12'}, And(cx.arr('this._hinfo', 'index', 'int') == cx.old.arr('this._hinfo', 'index', 'int'),
                                                         cx.arr('this._hinfo', 'weight') == cx.old.arr('this._hinfo', 'weight')))]
+
+    def replay(self, o, model, pid):
+        return kick_replay(model)
 
     # ---- loop invariants: cells before (n,x,y) in iteration order are final
     def _done(self, cx, before):
@@ -251,6 +281,11 @@ class KickMapApply(Contract):
                 ('p3', Implies(x - gx - 1 >= 0, (x - gx - 1) * ny >= 0)),
                 ('lex', Implies(And(inr, before), cg < cc))]
 
+    def _split_y(self, cx, cxb):
+        n, x, y = cxb.v('n'), cxb.v('x'), cxb.v('y')
+        same = And(cx.g('n') == n, cx.g('x') == x, cx.g('y') == y)
+        return [('cur', same), ('earlier', Not(same))]
+
     @staticmethod
     def _has(cx, name):
         return any(nm == name and vid in cx.st.env for vid, nm in cx.st.names.items())
@@ -262,5 +297,6 @@ class KickMapApply(Contract):
             d[f'n#{k}'] = LoopSpec(inv=self._inv_n)
             d[f'x#{k}'] = LoopSpec(inv=self._inv_x)
             d[f'y#{k}'] = LoopSpec(inv=self._inv_y, hints=self._hints_y)
+            d[f'y#{k}'].split = self._split_y
             d[f'j#{k}'] = LoopSpec(unroll=4)
         return d
